@@ -476,4 +476,383 @@ theorem stv_quota_pos_none {cfg : Cfg} (hc : cfg.quota = none) (votes : Profile)
     ∀ q, computeQuota cfg (totalVotes votes) n = some q → 0 < q := by
   intro q hq; simp [computeQuota, hc] at hq
 
+/-! ## Family 2: the distributor `evaluate(votes, n)` (no previous gains, no maximum seats) -/
+
+/-- the input of `TransferableVoteDistributor.evaluate(votes, n)` with the default `prev_gains={}`, `max_seats={}` -/
+def distInput (votes : Profile) (n : Nat) : Input := { votes := votes, nSeats := n, prev := [], maxS := [] }
+
+theorem mem_seatsAdd1 {s : Seats} {c : Cand} {k : Nat} {p : Cand × Nat} (h : p ∈ seatsAdd1 s c k) :
+    p ∈ s ∨ (p.1 = c ∧ k ≤ p.2) := by
+  induction s with
+  | nil =>
+    simp only [seatsAdd1, List.mem_singleton] at h
+    subst h; exact Or.inr ⟨rfl, by simp⟩
+  | cons x xs ih =>
+    obtain ⟨c', k'⟩ := x
+    simp only [seatsAdd1] at h
+    split at h
+    · rename_i hc
+      rcases List.mem_cons.mp h with h | h
+      · subst h; exact Or.inr ⟨hc, by simp⟩
+      · exact Or.inl (List.mem_cons_of_mem _ h)
+    · rcases List.mem_cons.mp h with h | h
+      · subst h; exact Or.inl List.mem_cons_self
+      · rcases ih h with h | h
+        · exact Or.inl (List.mem_cons_of_mem _ h)
+        · exact Or.inr h
+
+theorem keys_seatsAdd1 (s : Seats) (c : Cand) (k : Nat) :
+    (seatsAdd1 s c k).map (·.1) = if c ∈ s.map (·.1) then s.map (·.1) else s.map (·.1) ++ [c] := by
+  induction s with
+  | nil => simp [seatsAdd1]
+  | cons x xs ih =>
+    obtain ⟨c', k'⟩ := x
+    simp only [seatsAdd1]
+    by_cases hc : c' = c
+    · subst hc; simp
+    · rw [if_neg hc]
+      simp only [List.map_cons, ih, List.mem_cons]
+      have hc' : ¬ c = c' := fun e => hc e.symm
+      by_cases hm : c ∈ xs.map (·.1)
+      · simp [hm]
+      · simp [hm, hc']
+
+/-- a result dict under construction: positive awards, no key twice, keys are candidates of the votes -/
+def GoodSeats (cands : List Cand) (s : Seats) : Prop :=
+  (∀ p ∈ s, 0 < p.2) ∧ (s.map (·.1)).Nodup ∧ ∀ p ∈ s, p.1 ∈ cands
+
+theorem goodSeats_add1 {cands : List Cand} {s : Seats} (h : GoodSeats cands s) {c : Cand} {k : Nat} (hk : 0 < k)
+    (hc : c ∈ cands) : GoodSeats cands (seatsAdd1 s c k) := by
+  refine ⟨?_, ?_, ?_⟩
+  · intro p hp
+    rcases mem_seatsAdd1 hp with hp | ⟨_, hp⟩
+    · exact h.1 p hp
+    · omega
+  · rw [keys_seatsAdd1]
+    split
+    · exact h.2.1
+    · rename_i hm
+      refine List.nodup_append.mpr ⟨h.2.1, List.nodup_singleton c, ?_⟩
+      intro a ha b hb hab
+      rw [List.mem_singleton] at hb
+      exact hm (hb ▸ hab ▸ ha)
+  · intro p hp
+    rcases mem_seatsAdd1 hp with hp | ⟨hp, _⟩
+    · exact h.2.2 p hp
+    · rw [hp]; exact hc
+
+theorem goodSeats_add {cands : List Cand} {add : Seats} (hadd : ∀ p ∈ add, 0 < p.2 ∧ p.1 ∈ cands) :
+    ∀ s : Seats, GoodSeats cands s → GoodSeats cands (seatsAdd s add) := by
+  unfold seatsAdd
+  induction add with
+  | nil => intro s hs; exact hs
+  | cons x xs ih =>
+    intro s hs
+    rw [List.foldl_cons]
+    exact ih (fun p hp => hadd p (List.mem_cons_of_mem _ hp)) _
+      (goodSeats_add1 hs (hadd x List.mem_cons_self).1 (hadd x List.mem_cons_self).2)
+
+theorem availSeats_nil (a : Alloc) (prev : Seats) :
+    availSeats a prev [] = ((sortDesc (totalsInPlay a)).map (·.1)).map (fun c => (c, (none : Option Int))) := by
+  unfold availSeats
+  apply List.map_congr_left
+  intro c _
+  simp [maxGet]
+
+theorem foldl_availAdd_none (l : List (Cand × Option Int)) : l.foldl availAdd none = none := by
+  induction l with
+  | nil => rfl
+  | cons x xs ih => rw [List.foldl_cons]; simpa [availAdd] using ih
+
+/-- without maximum seats the elect-all shortcut is never taken while seats are open -/
+theorem shortcutCond_nil {cfg : Cfg} {a : Alloc} {n : Nat} {prev : Seats} (hle : sumSeats prev ≤ n)
+    (hne : sumSeats prev ≠ n) : shortcutCond cfg a n prev [] = false := by
+  unfold shortcutCond totAvail
+  rw [availSeats_nil]
+  cases hl : (sortDesc (totalsInPlay a)).map (·.1) with
+  | nil =>
+    simp only [List.map_nil, List.foldl_nil, Option.some.injEq, Bool.and_eq_false_imp, decide_eq_true_eq]
+    intro h0
+    have : (n - sumSeats prev : Nat) = 0 := by exact_mod_cast h0.symm
+    omega
+  | cons x xs =>
+    simp only [List.map_cons, List.foldl_cons, availAdd, foldl_availAdd_none]
+    simp
+
+/-- distributor form: the seats dict stays a valid result dict -/
+theorem dist_goodSeats {E : Engine} (hE : EngineOK E) {cfg : Cfg} {votes : Profile} {n : Nat} {ds : List Draw} {st : St}
+    (hr : Reach E cfg (distInput votes n) ds st) : GoodSeats (allRanked votes) st.seats := by
+  induction hr with
+  | init h0 =>
+    obtain ⟨_, _, hs, _⟩ := initState_inv (cfg := cfg) hE h0
+    rw [hs]
+    exact ⟨by simp [distInput], by simp [distInput], by simp [distInput]⟩
+  | @step st st' hr' h ih =>
+    have hi := reach_inv hE hr'
+    obtain ⟨hne, out, ds', hnext, _, hadv⟩ := countStep_inv h
+    have hfin := final_false_of_ne hi hne
+    subst hadv
+    have hk := hi.keys hfin
+    have hsub := hi.cont_sub
+    obtain ⟨hle, hcase⟩ := nextCount_cases hnext
+    simp only [distInput] at hnext hcase hle hsub hne
+    simp only [advance]
+    cases hcase with
+    | shortcut hs he => rw [shortcutCond_nil hle hne] at hs; cases hs
+    | election qv hq hpos el hel hnel hout =>
+      obtain ⟨_, _, _, _, he1, _, _⟩ := afterElection_inv hout
+      obtain ⟨_, hfacts⟩ := election_facts hk hpos hel
+      rw [he1]
+      exact goodSeats_add (fun p hp => ⟨(hfacts p hp).2.1, hsub _ (hfacts p hp).1⟩) _ ih
+    | elimination _ hout =>
+      obtain ⟨_, _, _, _, he1, _⟩ := afterElimination_inv hout
+      rw [he1]
+      exact ih
+
+/-- an `.ok` outcome of `TransferableVoteDistributor.evaluate` is the seats dict of a reached state with all seats
+    filled -/
+theorem distributorEvaluate_ok {E : Engine} {cfg : Cfg} {inp : Input} {ds : List Draw} {seats : Seats}
+    (hd : distributorEvaluate E cfg inp ds = .ok seats) :
+    ∃ st, Reach E cfg inp ds st ∧ sumSeats st.seats = inp.nSeats ∧ seats = st.seats := by
+  unfold distributorEvaluate at hd
+  cases h0 : initState E inp ds with
+  | error e => rw [h0] at hd; simp [bind, Except.bind] at hd
+  | ok st0 =>
+    rw [h0] at hd
+    simp only [bind, Except.bind] at hd
+    cases hk : runCounts E cfg inp (evalFuel inp) st0 with
+    | error e => rw [hk] at hd; simp at hd
+    | ok st =>
+      rw [hk] at hd
+      simp only at hd
+      split at hd
+      · rename_i hfin
+        simp only [pure, Except.pure] at hd
+        injection hd with hd
+        subst hd
+        refine ⟨st, (Reach.init h0).runCounts hk, ?_, rfl⟩
+        unfold finished at hfin
+        exact of_decide_eq_true hfin
+      · cases hd
+
+/-- the result dict `{candidate: seats}` as a distribution over keys -/
+def asDist (s : Seats) : List (Key × Nat) := s.map (fun p => (Key.cand p.1, p.2))
+
+/-- **TransferableVoteDistributor, shape** (`evaluate(votes, n)`; any transferer meeting the specification, any
+    configuration, any profile, any seat number): a returned dict awards positive numbers of seats to candidates of
+    the votes (never a tie object), holds no candidate twice, and the awards add up to exactly `n`. -/
+theorem stvd_shape {E : Engine} (hE : EngineOK E) {cfg : Cfg} {votes : Profile} {n : Nat} {ds : List Draw}
+    {seats : Seats} (h : distributorEvaluate E cfg (distInput votes n) ds = .ok seats) :
+    DistShape (allRanked votes) (asDist seats) ∧ (seats.map (·.1)).Nodup ∧ sumSeats seats = n := by
+  obtain ⟨st, hr, hsum, rfl⟩ := distributorEvaluate_ok h
+  obtain ⟨hpos, hnd, hsub⟩ := dist_goodSeats hE hr
+  refine ⟨⟨?_, ?_, ?_⟩, hnd, hsum⟩
+  · intro k m hkm
+    obtain ⟨p, hp, he⟩ := List.mem_map.mp hkm
+    injection he with _ he2
+    rw [← he2]; exact hpos p hp
+  · intro c m hcm
+    obtain ⟨p, hp, he⟩ := List.mem_map.mp hcm
+    injection he with he1 _
+    injection he1 with he1
+    rw [← he1]; exact hsub p hp
+  · intro T m hTm
+    obtain ⟨p, _, he⟩ := List.mem_map.mp hTm
+    injection he with he1 _
+    cases he1
+
+theorem stvd_gregory_shape {cfg : Cfg} {votes : Profile} {n : Nat} {ds : List Draw} {seats : Seats}
+    (h : distributorEvaluate gregory cfg (distInput votes n) ds = .ok seats) :
+    DistShape (allRanked votes) (asDist seats) ∧ (seats.map (·.1)).Nodup ∧ sumSeats seats = n :=
+  stvd_shape gregory_ok h
+
+/-! ### distributor: refusals -/
+
+/-- seats in the dict = previous gains + seats filled by quota, as long as the shortcut has not been taken -/
+theorem reach_byQuota {E : Engine} (hE : EngineOK E) {cfg : Cfg} {inp : Input} {ds : List Draw} {st : St}
+    (hr : Reach E cfg inp ds st) : st.final = false → sumSeats st.seats = sumSeats inp.prev + st.byQuota := by
+  induction hr with
+  | init h0 =>
+    obtain ⟨_, _, hs, hb⟩ := initState_inv (cfg := cfg) hE h0
+    intro _; rw [hs, hb]; rfl
+  | @step st st' hr' h ih =>
+    have hi := reach_inv hE hr'
+    obtain ⟨hne, out, ds', _, _, hadv⟩ := countStep_inv h
+    have hfin := final_false_of_ne hi hne
+    subst hadv
+    intro hf
+    simp only [advance] at hf
+    simp only [advance, hf, sumSeats_seatsAdd, ih hfin, Bool.false_eq_true, if_false]
+    omega
+
+theorem held_nonneg {a : Alloc} (hn : NonNeg a) : 0 ≤ held a := by
+  induction a with
+  | nil => simp [held]
+  | cons x xs ih =>
+    rw [held_cons]
+    have h1 := pileTotal_nonneg (hn x List.mem_cons_self)
+    have h2 := ih (fun hp hhp => hn hp (List.mem_cons_of_mem _ hhp))
+    linarith
+
+/-- with a quota above `votes / (n + 1)` (Droop, Hare) no more than `n` seats are ever filled: each seat filled by
+    quota costs one quota of the votes cast (C03 `conservation`) -/
+theorem dist_sum_le {E : Engine} (hE : EngineOK E) {cfg : Cfg} {votes : Profile} {n : Nat} {ds : List Draw} {st : St}
+    (hwf : WFVotes votes) {q : Rat} (hq : computeQuota cfg (totalVotes votes) n = some q) (hpos : 0 < q)
+    (hbig : totalVotes votes < ((n : Rat) + 1) * q) (hr : Reach E cfg (distInput votes n) ds st) :
+    sumSeats st.seats ≤ n := by
+  have hi := reach_inv hE hr
+  cases hf : st.final with
+  | true => exact le_of_eq (hi.fin hf)
+  | false =>
+    have hcons := hi.cons hf
+    have hb := reach_byQuota hE hr hf
+    have hheld := held_nonneg (hi.nonneg hwf hf)
+    have hempty := emptyWeight_nonneg hwf
+    have hrq : runQuota cfg (distInput votes n) = q := by
+      simp [runQuota, quotaValue, distInput, hq]
+    rw [hrq] at hcons
+    simp only [distInput] at hcons hempty hb
+    have hb' : st.byQuota = sumSeats st.seats := by rw [sumSeats_nil] at hb; omega
+    rw [hb'] at hcons
+    have h1 : q * (sumSeats st.seats : Rat) < ((n : Rat) + 1) * q := by linarith
+    have h2 : (sumSeats st.seats : Rat) < (n : Rat) + 1 := by
+      by_contra hc
+      have hc' : (n : Rat) + 1 ≤ (sumSeats st.seats : Rat) := not_lt.mp hc
+      have := mul_le_mul_of_nonneg_right hc' (le_of_lt hpos)
+      linarith
+    have h3 : sumSeats st.seats < n + 1 := by exact_mod_cast h2
+    omega
+
+/-- **TransferableVoteDistributor with Gregory transfer: every outcome of `evaluate(votes, n)` that is not a dict**
+    (any configuration, any profile, any seat number).  Besides the two declared refusals: `ValueError` of
+    `eliminate_step=None`; a non-positive quota value (Python divides by it; outside the model); and a count that
+    awards more seats than remain because one candidate alone holds more quotas than seats are open (possible with
+    quotas below Droop's, e.g. Imperiali; outside the model — the Python loop goes on with a negative number of
+    remaining seats).  The model's fuel value does not occur. -/
+theorem stvd_refusals_partial {cfg : Cfg} {votes : Profile} {n : Nat} {ds : List Draw} {e : Err}
+    (h : distributorEvaluate gregory cfg (distInput votes n) ds = .error e) :
+    e = .votingSystemError ∨ e = .notImplemented ∨ (cfg.step = none ∧ e = .valueError) ∨
+    ((∃ q, computeQuota cfg (totalVotes votes) n = some q ∧ q ≤ 0) ∧ e = errNonPositiveQuota) ∨
+    ((∃ st, Reach gregory cfg (distInput votes n) ds st ∧ n < sumSeats st.seats) ∧ e = errNegativeRemaining) := by
+  rcases gregory_evaluate_err h with h1 | ⟨st, hr, hne, hfin, hc⟩
+  · exact Or.inl h1
+  · simp only [distInput] at hc
+    cases hc with
+    | tie => exact Or.inr (Or.inl rfl)
+    | noStep hs => exact Or.inr (Or.inr (Or.inl ⟨hs, rfl⟩))
+    | quota q hq hle => exact Or.inr (Or.inr (Or.inr (Or.inl ⟨⟨q, hq, hle⟩, rfl⟩)))
+    | over hgt => exact Or.inr (Or.inr (Or.inr (Or.inr ⟨⟨st, hr, hgt⟩, rfl⟩)))
+    | avail p k hp hk2 hlt hs =>
+      rw [availSeats_nil] at hp
+      obtain ⟨c, _, rfl⟩ := List.mem_map.mp hp
+      cases hk2
+
+/-- **TransferableVoteDistributor, refusals** (`evaluate(votes, n)`, Gregory transfer, `eliminate_step` set,
+    non-negative vote counts, a positive quota `q` with `(n + 1)·q > votes cast` — Droop, Hare): an evaluation that
+    does not return a dict raises `VotingSystemError` or `NotImplementedError`; nothing else occurs. -/
+theorem stvd_refusals {cfg : Cfg} {votes : Profile} {n : Nat} {ds : List Draw} {e : Err}
+    (hwf : WFVotes votes) (hstep : cfg.step ≠ none) {q : Rat}
+    (hq : computeQuota cfg (totalVotes votes) n = some q) (hpos : 0 < q)
+    (hbig : totalVotes votes < ((n : Rat) + 1) * q)
+    (h : distributorEvaluate gregory cfg (distInput votes n) ds = .error e) :
+    e = .votingSystemError ∨ e = .notImplemented := by
+  rcases stvd_refusals_partial h with h1 | h1 | ⟨hs, _⟩ | ⟨⟨q', hq', hle⟩, _⟩ | ⟨⟨st, hr, hgt⟩, _⟩
+  · exact Or.inl h1
+  · exact Or.inr h1
+  · exact absurd hs hstep
+  · rw [hq] at hq'; injection hq' with hq'; subst hq'; exact absurd hpos (not_lt.mpr hle)
+  · exact absurd (dist_sum_le gregory_ok hwf hq hpos hbig hr) (by omega)
+
+/-- the C08 family `stv_dist_gregory_droop`: Droop quota, positive total, at least one seat -/
+theorem stvd_droop_refusals {cfg : Cfg} {votes : Profile} {n : Nat} {ds : List Draw} {e : Err}
+    (hwf : WFVotes votes) (hstep : cfg.step ≠ none) (hc : cfg.quota = some Gen.Quota.droop)
+    (htot : 0 < totalVotes votes) (h1 : 1 ≤ n)
+    (h : distributorEvaluate gregory cfg (distInput votes n) ds = .error e) :
+    e = .votingSystemError ∨ e = .notImplemented := by
+  have hq : computeQuota cfg (totalVotes votes) n = some (Gen.Quota.droop (totalVotes votes) n) := by
+    unfold computeQuota
+    rw [hc]
+    simp only
+    rw [if_pos ⟨ne_of_gt htot, by omega⟩]
+  exact stvd_refusals hwf hstep hq (C04.droop_positive hc hwf n _ hq) (C04.droop_exceeds hc hwf hq) h
+
+/-- the same for the selector families of C08 (`stv_gregory_droop`, `stv_gregory_hare`), default configuration -/
+theorem stv_droop_refusals {cfg : Cfg} {votes : Profile} {n : Nat} {ds : List Draw} {e : Err}
+    (hwf : WFVotes votes) (hc : cfg.quota = some Gen.Quota.droop) (hstep : cfg.step = some (-1))
+    (hmand : cfg.mandatory = false) (hn : n ≤ (allRanked votes).length)
+    (h : selectorEvaluate gregory cfg votes n ds = .error e) : e = .notImplemented :=
+  stv_default_refusals hstep hmand (stv_quota_pos_droop hc hwf n) hn h
+
+theorem stv_hare_refusals {cfg : Cfg} {votes : Profile} {n : Nat} {ds : List Draw} {e : Err}
+    (hwf : WFVotes votes) (hc : cfg.quota = some Gen.Quota.hare) (hstep : cfg.step = some (-1))
+    (hmand : cfg.mandatory = false) (hn : n ≤ (allRanked votes).length)
+    (h : selectorEvaluate gregory cfg votes n ds = .error e) : e = .notImplemented :=
+  stv_default_refusals hstep hmand (stv_quota_pos_hare hc hwf n) hn h
+
+/-! ## witnesses of the excluded outcomes, and non-vacuity -/
+
+section Witness
+def cfgDroop : Cfg := { quota := some Gen.Quota.droop, acceptEqual := true, mandatory := false, step := some (-1) }
+def cfgHare : Cfg := { quota := some Gen.Quota.hare, acceptEqual := true, mandatory := false, step := some (-1) }
+
+/-- **Finding (rounded quotas).**  Full statement that fails: `stv_refusals` without `hq`.  One voter ranking four
+    candidates, three seats, `quota_function='hare_rounded'` (or `'hagenbach_bischoff_rounded'`): the quota is
+    `round(1/3) = 0`, the model leaves its domain where `_elect_by_quota` computes `total // quota_val` — the Python
+    code raises `ZeroDivisionError`, not a declared refusal.  The input is inside C08's quantifier (positive total,
+    `1 ≤ n ≤ #candidates`). -/
+theorem stv_refusals_quota_zero_witness :
+    WFVotes [([.one 0, .one 1, .one 2, .one 3], 1)] ∧ 3 ≤ (allRanked [([.one 0, .one 1, .one 2, .one 3], 1)]).length ∧
+    selectorEvaluate gregory { cfgDroop with quota := some Gen.Quota.hare_rounded }
+      [([.one 0, .one 1, .one 2, .one 3], 1)] 3 [] = .error errNonPositiveQuota ∧
+    selectorEvaluate gregory { cfgDroop with quota := some Gen.Quota.hagenbach_bischoff_rounded }
+      [([.one 0, .one 1, .one 2, .one 3], 1)] 3 [] = .error errNonPositiveQuota := by
+  refine ⟨by unfold WFVotes; decide +kernel, by decide +kernel, by decide +kernel, by decide +kernel⟩
+
+/-- full statement that fails: `stv_refusals` without `hstep` — `eliminate_step=None` without a retainer raises
+    `ValueError` as soon as somebody has to be eliminated -/
+theorem stv_refusals_no_step_witness :
+    selectorEvaluate gregory { cfgDroop with step := none } [([.one 0, .one 1, .one 2], 1), ([.one 1], 1)] 1 [] =
+      .error .valueError := by decide +kernel
+
+/-- full statement that fails of the MODEL: `stvd_refusals` without `hbig`.  Imperiali quota 10/4, two seats, one
+    candidate with 9 of 10 votes holds three quotas and keeps all three (`_correct_overcount` only takes seats from
+    candidates that are not among the best): three seats for a house of two.  The model stops here (outside its
+    domain); the Python loop goes on and ends in `VotingSystemError('infinite loop in STV')`. -/
+theorem stvd_refusals_over_award_witness :
+    distributorEvaluate gregory { cfgDroop with quota := some Gen.Quota.imperiali }
+      (distInput [([.one 0, .one 1, .one 2], 9), ([.one 1], 1)] 2) [] = .error errNegativeRemaining := by
+  decide +kernel
+end Witness
+
+section Example
+/-- a>b ×10, b ×3, c ×4, c>b ×1 (C03's example): two seats -/
+def shVotes : Profile := [([.one 0, .one 1], 10), ([.one 1], 3), ([.one 2], 4), ([.one 2, .one 1], 1)]
+
+example : WFVotes shVotes := by unfold WFVotes; decide +kernel
+-- `stv_shape` / `stv_default_total`: a list is returned
+example : selectorEvaluate gregory cfgDroop shVotes 2 [] = .ok [0, 1] ∧ 1 ≤ 2 ∧ 2 ≤ (allRanked shVotes).length := by
+  decide +kernel
+example : selectorEvaluate gregory cfgHare shVotes 2 [] = .ok [0, 2] := by decide +kernel
+-- `stv_default_refusals`, `stv_droop_refusals`: the refusal occurs (a>b>c ×3, b>a>c ×3, c ×5; one seat)
+example : selectorEvaluate gregory cfgDroop C04.cVotes 1 [] = .error .notImplemented ∧
+    cfgDroop.step = some (-1) ∧ cfgDroop.mandatory = false ∧ 1 ≤ (allRanked C04.cVotes).length := by decide +kernel
+-- `stv_refusals`: `VotingSystemError` occurs with `mandatory_quota` (a ×2, b ×1, two seats, Droop quota 2)
+example : selectorEvaluate gregory { cfgDroop with mandatory := true } [([.one 0], 2), ([.one 1], 1)] 2 [] =
+    .error .votingSystemError ∧ ({ cfgDroop with mandatory := true } : Cfg).step ≠ none := by decide +kernel
+example : ∀ q, computeQuota { cfgDroop with mandatory := true } (totalVotes [([.one 0], 2), ([.one 1], 1)]) 2 = some q →
+    0 < q := stv_quota_pos_droop rfl (by unfold WFVotes; decide +kernel) 2
+-- … and with more seats than candidates
+example : selectorEvaluate gregory cfgDroop [([.one 0], 1)] 2 [] = .error .votingSystemError := by decide +kernel
+-- `stvd_shape`: a dict is returned; one candidate may hold several seats
+example : distributorEvaluate gregory cfgDroop (distInput [([.one 0, .one 1, .one 2], 5), ([.one 1], 4)] 2) [] =
+    .ok [(0, 1), (1, 1)] := by decide +kernel
+example : distributorEvaluate gregory cfgDroop (distInput [([.one 0, .one 1], 8), ([.one 1], 1)] 2) [] =
+    .ok [(0, 2)] := by decide +kernel
+-- `stvd_refusals` / `stvd_droop_refusals`: the refusal occurs (nobody is ever removed for being elected)
+example : distributorEvaluate gregory cfgDroop (distInput [([.one 0, .one 1, .one 2], 5), ([.one 1], 1)] 2) [] =
+    .error .votingSystemError ∧ WFVotes [([.one 0, .one 1, .one 2], 5), ([.one 1], 1)] ∧
+    0 < totalVotes [([.one 0, .one 1, .one 2], 5), ([.one 1], 1)] := by
+  refine ⟨by decide +kernel, by unfold WFVotes; decide +kernel, by decide +kernel⟩
+end Example
+
 end VL.C08
